@@ -434,14 +434,15 @@ def grid_shard(item: dict[str, Any]) -> Collector:
     r_n, n = 4, 2
     filters = [{"method": "sort-objective", "options": {"sort": [0], "first": 1, "last": 2}},
                {"method": "cvar-constraint", "options": {"sort": 0, "percentile": 0.5}}]
-    for obj_filt in itertools.product((-1, 0, 1), repeat=k_n):
-        for con_filt in itertools.product((-1, 0, 1), repeat=c_n):
+    # (None: the map is not given at all - not the same code path as a map of -1 entries)
+    for obj_filt in (None, *itertools.product((-1, 0, 1), repeat=k_n)):
+        for con_filt in (None, *itertools.product((-1, 0, 1), repeat=c_n)):
             for mode, nans in itertools.product(("alone", "combined", "batch"), ([], [(1, 0)], [(3, k_n)])):
                 case = {
                     "n": n, "R": r_n, "K": k_n, "C": c_n, "weights": [1.0, 2.0, 3.0, 0.5], "obj_weights": [1.0, 0.5][:k_n],
                     "estimators": ["mean", "stddev"] if item["stddev"] else ["mean"], "filters": filters, "min_success": 1,
                     "obj_est": [i % 2 for i in range(k_n)] if item["stddev"] else None, "con_est": [(i + 1) % 2 for i in range(c_n)] if item["stddev"] else None,
-                    "obj_filt": list(obj_filt), "con_filt": list(con_filt),
+                    "obj_filt": None if obj_filt is None else list(obj_filt), "con_filt": None if con_filt is None else list(con_filt),
                     "slopes": [0.25 * (((7 * i) % 11) - 5) for i in range(r_n * (k_n + c_n) * n)],
                     "offsets": [0.5 * (((5 * i) % 13) - 6) for i in range(r_n * (k_n + c_n))],
                     "nans": list(nans), "xs": [[1.0, -0.5]] if mode != "batch" else [[1.0, -0.5], [0.0, 2.0]], "single": mode != "batch",
